@@ -92,7 +92,8 @@ type mdef struct {
 	// argument form (debug-print 7): the transcript of a successful call must show exactly
 	// that many "7" lines per evaluation of the call site
 	sevens  func(b binding) int
-	selfRec bool // expansion calls m again
+	selfRec bool   // expansion calls m again
+	pre     string // extra prelude (the inner macros of the chain family)
 }
 
 type item struct {
@@ -306,6 +307,158 @@ func defsFor(f formals, seqLen int) []mdef {
 	return defs
 }
 
+// ---------------------------------------------------------------------------
+// Family MR: macro-to-macro chains whose FIRST expansion embeds the &rest list
+// WHOLE (the list value itself, not its elements) as an argument of the inner
+// macro call.  The &rest parameter is a window onto the argument array of the
+// expansion step, so anything that reuses that array across steps shows here.
+// The inner macros quote their arguments: the final value spells out exactly
+// which forms each step received.
+
+const chainPrelude = `(defmacro k1 (p) (quasiquote (list (quote (unquote p)))))
+(defmacro k2 (p q) (quasiquote (list (quote (unquote p)) (quote (unquote q)))))
+(defmacro k3 (p q s) (quasiquote (list (quote (unquote p)) (quote (unquote q)) (quote (unquote s)))))
+(defmacro k4 (p q s u) (quasiquote (list (quote (unquote p)) (quote (unquote q)) (quote (unquote s)) (quote (unquote u)))))
+(defmacro j1 (p) (quasiquote (k1 (unquote p))))
+(defmacro j2 (p q) (quasiquote (k2 (unquote q) (unquote p))))
+(defmacro j3 (p q s) (quasiquote (k3 (unquote q) (unquote s) (unquote p))))
+(defmacro j4 (p q s u) (quasiquote (k4 (unquote q) (unquote s) (unquote u) (unquote p))))
+(defmacro kr (&rest z) (quasiquote (k2 (unquote z) 0)))
+(defmacro jr (p &rest z) (quasiquote (k3 (unquote p) (unquote z) (quote (unquote-splicing z)))))
+`
+
+// chainDefsFor: for a formals shape with &rest, every (inner arity 1..4, position of the
+// embedded rest list, way of embedding it, chain length 2 | 3), plus inner macros that
+// themselves take &rest.
+func chainDefsFor(f formals) []mdef {
+	if f.rest == "" {
+		return nil
+	}
+	r := f.rest
+	restQ := func(b binding) string { return "'" + restList(b) }
+	type part struct {
+		q, l string // text inside a quasiquote template / inside a (list ...) constructor
+		exp  func(b binding) string
+	}
+	// fillers for the other argument positions of the inner call
+	var fill []part
+	for _, v := range f.scalars() {
+		fill = append(fill, part{"(unquote " + v + ")", v, sc(v)})
+	}
+	for _, c := range []string{"8", "9", "6"} {
+		fill = append(fill, part{c, c, konst(c)})
+	}
+	type embed struct {
+		id    string
+		quasi bool
+		part
+	}
+	embeds := []embed{
+		{"unquote", true, part{q: "(unquote " + r + ")", exp: restQ}},
+		{"quote-unquote", true, part{q: "(quote (unquote " + r + "))", exp: func(b binding) string { return "(quote " + restQ(b) + ")" }}},
+		{"nested", true, part{q: "(z (unquote " + r + ") 5)", exp: func(b binding) string { return "(z " + restQ(b) + " 5)" }}},
+		{"list", false, part{l: r, exp: restQ}},
+		{"list-nested", false, part{l: "(list 0 " + r + ")", exp: func(b binding) string { return "'(0 " + restQ(b) + ")" }}},
+	}
+	var defs []mdef
+	add := func(body string, exp func(b binding) string) {
+		defs = append(defs, mdef{fam: "MR", body: body, expand: exp, pre: chainPrelude, post: "0"})
+	}
+	for n := 1; n <= 4; n++ {
+		for pos := 0; pos < n; pos++ {
+			for _, e := range embeds {
+				for _, inner := range []string{"k", "j"} {
+					head := fmt.Sprintf("%s%d", inner, n)
+					parts := make([]part, n)
+					fi := 0
+					for i := range parts {
+						if i == pos {
+							parts[i] = e.part
+						} else {
+							parts[i] = fill[fi]
+							fi++
+						}
+					}
+					var src []string
+					for _, p := range parts {
+						if e.quasi {
+							src = append(src, p.q)
+						} else {
+							src = append(src, p.l)
+						}
+					}
+					body := "(quasiquote (" + head + " " + strings.Join(src, " ") + "))"
+					if !e.quasi {
+						body = "(list (car '(" + head + ")) " + strings.Join(src, " ") + ")"
+					}
+					ps := parts
+					add(body, func(b binding) string {
+						out := []string{head}
+						for _, p := range ps {
+							out = append(out, p.exp(b))
+						}
+						return "(" + strings.Join(out, " ") + ")"
+					})
+				}
+			}
+		}
+	}
+	// inner macros that take &rest themselves (the second step binds a window too)
+	for _, t := range []string{"(kr {R})", "(kr 8 {R})", "(kr {R} 8 9)", "(kr {R} {R})", "(jr {R} 8)", "(jr 8 {R} 9)", "(jr {R})", "(jr 8 9 {R})"} {
+		t := t
+		add("(quasiquote "+strings.ReplaceAll(t, "{R}", "(unquote "+r+")")+")",
+			func(b binding) string { return strings.ReplaceAll(t, "{R}", restQ(b)) })
+	}
+	return defs
+}
+
+// chainTuplesFor: argument tuples giving 0..3 rest arguments (and one rejected length when
+// there is one): two tuples whose forms differ at every position, so that an overwritten
+// slot is visible, plus every tuple over alpha.
+func chainTuplesFor(f formals, alpha []string) [][]string {
+	distinct := [][]string{
+		{"1", "x", "(f x)", "'(a b)", "(debug-print 7)"},
+		{"x", "2", "'(a b)", "(m2 1)", "3"},
+	}
+	var out [][]string
+	seen := map[string]bool{}
+	push := func(t []string) {
+		k := strings.Join(t, "\x00")
+		if !seen[k] {
+			seen[k] = true
+			out = append(out, t)
+		}
+	}
+	min := len(f.req)
+	max := len(f.req) + len(f.opt) + 3
+	if min > 0 {
+		push([]string{}) // rejected
+	}
+	for n := min; n <= max; n++ {
+		if n == 0 {
+			push([]string{})
+			continue
+		}
+		for _, d := range distinct {
+			push(append([]string{}, d[:n]...))
+		}
+		total := 1
+		for i := 0; i < n; i++ {
+			total *= len(alpha)
+		}
+		for idx := 0; idx < total && len(alpha) > 0; idx++ {
+			t := make([]string, n)
+			x := idx
+			for i := n - 1; i >= 0; i-- {
+				t[i] = alpha[x%len(alpha)]
+				x /= len(alpha)
+			}
+			push(t)
+		}
+	}
+	return out
+}
+
 // argument tuples for a formals shape: every tuple over the argument alphabet
 // for each accepted length 0..3 (length 3 over alpha3), and for each rejected
 // length one tuple of effectful forms (binding must fail before anything runs).
@@ -367,9 +520,9 @@ var definers = []string{"defmacro", "macrolet"}
 func program(definer string, f formals, d mdef, c ctxT, form string) string {
 	site := strings.ReplaceAll(strings.ReplaceAll(c.src, "{C}", form), "{P}", d.post)
 	if definer == "defmacro" {
-		return prelude + "(defmacro m " + f.src + " " + d.body + ")\n" + site
+		return prelude + d.pre + "(defmacro m " + f.src + " " + d.body + ")\n" + site
 	}
-	return prelude + "(macrolet ((m " + f.src + " " + d.body + "))\n" + site + ")"
+	return prelude + d.pre + "(macrolet ((m " + f.src + " " + d.body + "))\n" + site + ")"
 }
 
 func callForm(c ctxT, args []string) string {
@@ -381,6 +534,7 @@ func callForm(c ctxT, args []string) string {
 }
 
 type macroSpace struct {
+	labels []string // one per block: the formals shape, "+chains" for the MR blocks
 	shapes []formals
 	defs   [][]mdef
 	tuples [][][]string
@@ -391,24 +545,41 @@ type macroSpace struct {
 }
 
 func newMacroSpace(thorough bool) *macroSpace {
-	s := &macroSpace{shapes: formalShapes}
+	s := &macroSpace{shapes: append([]formals{}, formalShapes...)}
 	seqLen, alpha3 := 2, []string{"x", "(debug-print 7)"}
 	s.ctxs = allCtx[:4]
 	if thorough {
 		seqLen, alpha3 = 3, argForms
 		s.ctxs = allCtx
 	}
-	for _, f := range s.shapes {
+	for _, f := range formalShapes {
 		l := seqLen
 		if thorough && len(f.scalars())*2+4 > 6 && f.rest != "" {
 			// (a &optional o &rest r): 8 items; length-3 sequences over 8 items x 259 tuples is
 			// the bulk of the space, keep it to length 2 plus all of length 3 for the smaller shapes
 			l = 2
 		}
+		s.labels = append(s.labels, f.src)
 		s.defs = append(s.defs, defsFor(f, l))
 		s.tuples = append(s.tuples, tuplesFor(f, alpha3))
+	}
+	// chain blocks: the shapes with &rest again, with the MR definitions and their own tuples
+	var chainAlpha []string
+	if thorough {
+		chainAlpha = []string{"1", "x"}
+	}
+	for _, f := range formalShapes {
+		if f.rest == "" {
+			continue
+		}
+		s.shapes = append(s.shapes, f)
+		s.labels = append(s.labels, f.src+"+chains")
+		s.defs = append(s.defs, chainDefsFor(f))
+		s.tuples = append(s.tuples, chainTuplesFor(f, chainAlpha))
+	}
+	for i := range s.shapes {
 		s.offs = append(s.offs, s.total)
-		s.total += int64(len(s.defs[len(s.defs)-1]) * len(definers) * len(s.tuples[len(s.tuples)-1]))
+		s.total += int64(len(s.defs[i]) * len(definers) * len(s.tuples[i]))
 	}
 	return s
 }
@@ -480,8 +651,8 @@ func runMacroSpace(r *core.Run, s *macroSpace) {
 	var ndefs int64
 	for i := range s.shapes {
 		ndefs += int64(len(s.defs[i]))
-		r.Bound("macro_defs"+s.shapes[i].src, len(s.defs[i]))
-		r.Bound("macro_arg_tuples"+s.shapes[i].src, len(s.tuples[i]))
+		r.Bound("macro_defs"+s.labels[i], len(s.defs[i]))
+		r.Bound("macro_arg_tuples"+s.labels[i], len(s.tuples[i]))
 	}
 	var cids []string
 	for _, c := range s.ctxs {
